@@ -66,11 +66,13 @@ impl Ctx {
         self.imps.clear();
         self.notes.clear();
     }
-    fn fail(&mut self, class: &str, what: String, inputs: &[&[u8]]) {
+    /// `ops` are replayable lines: `expect <input> <want>`, `follow <input> <consumed>`,
+    /// `same <a> <b>` (all fields hex)
+    fn fail(&mut self, class: &str, what: String, ops: Vec<String>) {
         self.log.oracle_fail(OracleFailure {
             class: class.to_string(),
             what,
-            ops: inputs.iter().map(|b| format!("parse {}", hex(b))).collect(),
+            ops,
             known: String::new(),
         });
     }
@@ -148,7 +150,7 @@ fn check_round_trip(ctx: &mut Ctx, v: &Response<'static>, wire: &[u8], rest: &[u
                     clip(&out, 300),
                     clip(&want, 300)
                 ),
-                &[&buf],
+                vec![format!("expect {} {}", hex(&buf), hex(want.as_bytes()))],
             );
         }
     }
@@ -196,7 +198,11 @@ fn run_c03(ctx: &mut Ctx, rng: &mut Rng, thorough: bool, shard: usize, shards: u
                     both.extend_from_slice(&rest);
                     let after = verdict(&both[c..]);
                     if alone != after {
-                        ctx.fail(class, format!("what follows {} parses differently", show_bytes(&wire)), &[&both]);
+                        ctx.fail(
+                            class,
+                            format!("what follows {} parses differently", show_bytes(&wire)),
+                            vec![format!("follow {} {}", hex(&both), c)],
+                        );
                     }
                 }
             }
@@ -262,7 +268,7 @@ fn run_c12(ctx: &mut Ctx, rng: &mut Rng, thorough: bool, shard: usize, shards: u
                         show_bytes(&canon),
                         clip(&outs[outs.len() - 1].1, 200)
                     ),
-                    &[wire, &canon],
+                    vec![format!("same {} {}", hex(wire), hex(&canon))],
                 );
                 break;
             }
@@ -462,7 +468,7 @@ fn eval_request(ctx: &mut Ctx, rng: &mut Rng, req: &Req, thorough: bool) {
                 clip(&out, 200),
                 clip(&want, 200)
             ),
-            &[&reply],
+            vec![format!("expect {} {}", hex(&reply), hex(want.as_bytes()))],
         );
     }
 }
@@ -519,25 +525,64 @@ fn main() {
     if let Some(f) = args.get("replay") {
         let mut ctx = Ctx::new(&model);
         let text = std::fs::read_to_string(f).expect("replay file");
+        let mut bad = 0;
+        let value_of = |o: &str| o.splitn(3, ' ').nth(2).unwrap_or("").to_string();
         for line in text.lines() {
-            let mut it = line.split_whitespace();
-            if it.next() != Some("parse") {
+            let f: Vec<&str> = line.split_whitespace().collect();
+            if f.is_empty() || f[0].starts_with('#') {
                 continue;
             }
-            let b = unhex(it.next().unwrap_or(""));
-            let v = ctx.eval(&b, "replay");
-            println!("input {}", show_bytes(&b));
-            println!("impl  {}", clip(&v, 600));
+            match f[0] {
+                "parse" if f.len() >= 2 => {
+                    let b = unhex(f[1]);
+                    let v = ctx.eval(&b, "replay");
+                    println!("input {}", show_bytes(&b));
+                    println!("impl  {}", clip(&v, 600));
+                }
+                "expect" if f.len() >= 3 => {
+                    let b = unhex(f[1]);
+                    let want = String::from_utf8_lossy(&unhex(f[2])).to_string();
+                    let v = ctx.eval(&b, "replay");
+                    println!("input {}", show_bytes(&b));
+                    println!("impl  {}", clip(&v, 600));
+                    println!("want  {}", clip(&want, 600));
+                    if v != want {
+                        println!("ORACLE-FAIL the parsed value / consumed length is not the one sent");
+                        bad += 1;
+                    }
+                }
+                "follow" if f.len() >= 3 => {
+                    let both = unhex(f[1]);
+                    let c: usize = f[2].parse().unwrap_or(0);
+                    let first = ctx.eval(&both, "replay");
+                    println!("input {}", show_bytes(&both));
+                    println!("impl  {}", clip(&first, 600));
+                    if consumed_of(&first) != Some(c) {
+                        println!("ORACLE-FAIL the response no longer ends after {} bytes", c);
+                        bad += 1;
+                    }
+                }
+                "same" if f.len() >= 3 => {
+                    let a = unhex(f[1]);
+                    let b = unhex(f[2]);
+                    let va = ctx.eval(&a, "replay");
+                    let vb = ctx.eval(&b, "replay");
+                    println!("a     {} -> {}", show_bytes(&a), clip(&va, 400));
+                    println!("b     {} -> {}", show_bytes(&b), clip(&vb, 400));
+                    if va.starts_with("OK") != vb.starts_with("OK") || (va.starts_with("OK") && value_of(&va) != value_of(&vb)) {
+                        println!("ORACLE-FAIL two spellings of one value parse differently");
+                        bad += 1;
+                    }
+                }
+                _ => {}
+            }
         }
         ctx.flush();
-        let mut bad = 0;
         for d in &ctx.log.disagreements {
             println!("DISAGREE impl={} model={}", d.imp, d.model);
             bad += 1;
         }
-        // a replay of an oracle failure cannot re-derive the expected value without the seed; report
-        // the verdicts and leave the judgement to the reader, exit 1 to flag the recorded failure
-        std::process::exit(if bad > 0 { 1 } else { 1 });
+        std::process::exit(if bad > 0 { 1 } else { 0 });
     }
     let total = Mutex::new(Log::default());
     std::thread::scope(|s| {
